@@ -27,7 +27,7 @@ class ExcelComparator(object):
             if isinstance(self.value, bool):
                 other = False
             elif isinstance(self.value, number_types):
-                other = type(self.value)(0)  # so it's the same number type
+                other = 0  # a blank is 0 against a number (not type(value)(0): an IntEnum may have no member 0)
             elif isinstance(self.value, string_types):
                 other = ''
         elif isinstance(other, datetime.datetime):
